@@ -248,6 +248,59 @@ def _ob_index(i: int, ndel: int) -> bool:
     return (e.name, e.id) == want[i if i >= 0 else i + L]
 
 
+# ---------------------------------------------------------------------------
+# d. a list that is emptied and filled again (through ONE entity object) is the
+#    same list for every other handle         PART = list kind
+# ---------------------------------------------------------------------------
+def _ob_empty_refill(k1: int, k2: int, via_other: bool) -> bool:
+    """
+    pre: 0 <= k1 < 2 and 0 <= k2 < 2
+    post: __return__
+    """
+    import nixio
+    kind = PART
+    nixfake.begin()
+    f = nixio.File(PATH, "w")
+    blk = f.create_block("blk", "t")
+    a = blk.create_data_array("a", "t", data=[1.0])
+    b = blk.create_data_array("b", "t", data=[2.0])
+    src = blk.create_source("s", "t")
+    if kind == "group.data_arrays":
+        owner = blk.create_group("g", "t")
+        get = lambda o: o.data_arrays                                   # noqa
+        fresh = lambda: f.blocks["blk"].groups["g"]                     # noqa
+        items = [a, b]
+    elif kind == "tag.references":
+        owner = blk.create_tag("tg", "t", [0.0])
+        get = lambda o: o.references                                    # noqa
+        fresh = lambda: f.blocks["blk"].tags["tg"]                      # noqa
+        items = [a, b]
+    elif kind == "data_array.sources":
+        owner = a
+        get = lambda o: o.sources                                       # noqa
+        fresh = lambda: f.blocks["blk"].data_arrays["a"]                # noqa
+        items = [src, blk.create_source("s2", "t")]
+    else:
+        sec = f.create_section("sec", "t")
+        owner = sec
+        get = None
+    other = fresh()
+    lst = get(owner)
+    olst = get(other)                  # a second live wrapper with the list already instantiated
+    first = _pick(items, k1)
+    lst.append(first)
+    if [x.id for x in olst] != [first.id]:
+        return False
+    del lst[first.id]                  # now empty (the container group may be dropped)
+    if len(lst) != 0 or len(olst) != 0:
+        return False
+    second = _pick(items, k2)
+    (olst if via_other else lst).append(second)
+    want = [second.id]
+    return [x.id for x in lst] == want and [x.id for x in olst] == want and \
+        [x.id for x in get(fresh())] == want
+
+
 def validate():
     return {"fakeh5_vs_h5py": fakeh5.validate_against_h5py()}
 
@@ -300,6 +353,12 @@ OBLIGATIONS = [
                "is character for character the id of a sibling is ambiguous by design (the id takes "
                "precedence) - only lookups by id are asserted for it; data frames (not working "
                "with the installed NumPy); reopening (libhdf5)"),
+    Ob("link_list_emptied_and_refilled", _ob_empty_refill, timeout=600,
+       partition=["group.data_arrays", "tag.references", "data_array.sources"],
+       functions=["nixio.container.LinkContainer.append", "nixio.container.LinkContainer.__delitem__",
+                  "nixio.hdf5.h5group.H5Group.delete", "nixio.hdf5.h5group.H5Group._create_h5obj",
+                  "nixio.hdf5.h5group.H5Group.create_link"],
+       replay=lambda a: _real("_ob_empty_refill", a)),
     Ob("positional_index_all_integers", _ob_index, timeout=600, partition=KINDS,
        functions=["nixio.container.Container.__getitem__", "nixio.hdf5.h5group.H5Group.get_by_pos"],
        replay=lambda a: _real("_ob_index", a)),
